@@ -219,6 +219,11 @@ Proof.
   intros. unfold delete_with_cond. destruct (get_tpl k s); [destruct (cond t)|]; simpl; auto.
 Qed.
 
+Lemma del_tick : forall cond k s, tick (delete_with_cond cond k s) = tick s.
+Proof.
+  intros. unfold delete_with_cond. destruct (get_tpl k s); [destruct (cond t)|]; simpl; auto.
+Qed.
+
 Lemma take_cb_In : forall id l x rest, take_cb id l = Some (x, rest) ->
   In x l /\ (forall c, In c l -> c = x \/ In c rest) /\ (forall c, In c rest -> In c l).
 Proof.
@@ -242,7 +247,7 @@ Definition good_cb (p : tpl) (c : cb) : Prop :=
 (* P3 for one stored template *)
 Definition tpl_ok (s : st) (k : key) (p : tpl) : Prop :=
   exists tm, get_timer (t_timer p) s = Some tm /\ tm_key tm = k /\
-    (tm_armed tm = Some (t_expiry p) \/
+    ((exists d, tm_armed tm = Some d /\ t_expiry p <= d <= t_expiry p + tick s) \/
      (tm_armed tm = None /\ t_expiry p <= now s /\ exists c, In c (inflight s) /\ good_cb p c)).
 
 Record Inv (ttl : Z) (s : st) : Prop := mkInv {
@@ -258,13 +263,16 @@ Record Inv (ttl : Z) (s : st) : Prop := mkInv {
       exists p, get_tpl k s = Some p;
   inv_ok_past : forall k t0, lookup key_eqb k (last_ok s) = Some t0 -> t0 <= now s;
   inv_nodup_tpls : NoDup (map fst (tpls s));
-  inv_nodup_timers : NoDup (map fst (timers s))
+  inv_nodup_timers : NoDup (map fst (timers s));
+  inv_tick : 0 <= tick s
 }.
 
-Lemma Inv_init : forall ttl, Inv ttl init.
+Lemma Inv_init_tick : forall ttl tk, 0 <= tk -> Inv ttl (init_tick tk).
 Proof.
-  intro ttl. constructor; simpl; intros; try discriminate; try contradiction; try constructor.
+  intros ttl tk H. constructor; simpl; intros; try discriminate; try contradiction; try constructor; auto.
 Qed.
+Lemma Inv_init : forall ttl, Inv ttl init.
+Proof. intro ttl. apply Inv_init_tick. lia. Qed.
 
 (* timers of distinct stored templates are distinct *)
 Lemma timers_distinct : forall s k1 p1 k2 p2,
@@ -288,9 +296,9 @@ Qed.
 Lemma add_get_timer : forall ttl k tag s t',
   get_timer t' (add_template ttl k tag s) =
   match get_tpl k s with
-  | None => if Nat.eqb t' (next_timer s) then Some (mkTimer k (Some (now s + ttl))) else get_timer t' s
+  | None => if Nat.eqb t' (next_timer s) then Some (mkTimer k (Some (now s + tick s + ttl))) else get_timer t' s
   | Some p => match get_timer t' s with
-              | Some tm => if Nat.eqb t' (t_timer p) then Some (mkTimer (tm_key tm) (Some (now s + ttl))) else Some tm
+              | Some tm => if Nat.eqb t' (t_timer p) then Some (mkTimer (tm_key tm) (Some (now s + tick s + ttl))) else Some tm
               | None => None
               end
   end.
@@ -301,12 +309,15 @@ Proof.
 Qed.
 
 Lemma add_other : forall ttl k tag s,
-  now (add_template ttl k tag s) = now s /\ inflight (add_template ttl k tag s) = inflight s /\
+  now (add_template ttl k tag s) = now s + tick s /\ inflight (add_template ttl k tag s) = inflight s /\
   next_cb (add_template ttl k tag s) = next_cb s /\ last_ok (add_template ttl k tag s) = last_ok s /\
   next_timer (add_template ttl k tag s) = match get_tpl k s with Some _ => next_timer s | None => S (next_timer s) end.
 Proof.
   intros. unfold add_template. destruct (get_tpl k s); simpl; auto.
 Qed.
+
+Lemma add_tick : forall ttl k tag s, tick (add_template ttl k tag s) = tick s.
+Proof. intros. unfold add_template. destruct (get_tpl k s); simpl; auto. Qed.
 
 Lemma add_nodup : forall ttl k tag s,
   NoDup (map fst (tpls s)) -> NoDup (map fst (timers s)) ->
@@ -354,6 +365,7 @@ Proof.
               | None => None end).
   { intro t'. unfold s'. rewrite del_get_timer, E, C. reflexivity. }
   destruct (del_other cond k s) as (Hnow & Hfl & Hnt & _ & _). fold s' in Hnow, Hfl, Hnt.
+  pose proof (del_tick cond k s) as Htk. fold s' in Htk.
   split; [|split; [|split; [|split]]].
   - intros k' p' G. rewrite GT in G. destruct (key_eqb k' k) eqn:EK; [discriminate|].
     apply key_eqb_neq in EK. destruct (Hother k' p' EK G) as (tm' & G' & K' & D).
@@ -361,7 +373,7 @@ Proof.
     { intro X. rewrite X in G'. rewrite Gk in G'. inversion G'. subst tm'. congruence. }
     exists tm'. split; [|split; [exact K'|]].
     + rewrite GM, G'. apply Nat.eqb_neq in NE. rewrite NE. reflexivity.
-    + rewrite Hnow, Hfl. exact D.
+    + rewrite Hnow, Hfl, Htk. exact D.
   - intros t tm d G A. rewrite GM in G. destruct (get_timer t s) as [tm0|] eqn:G0; [|discriminate].
     destruct (Nat.eqb t (t_timer p)) eqn:ET.
     + inversion G. subst tm. simpl in A. discriminate.
@@ -388,7 +400,7 @@ Section Preservation.
   Lemma inv_advance : forall s d, Inv ttl s -> Inv ttl (step ttl s (AAdvance d)).
   Proof.
     intros s d I. simpl. destruct (d <? 0) eqn:D; [exact I|]. apply Z.ltb_ge in D.
-    destruct I as [I1 I2 I3 I4 I5 I6 I7 I8 I9 I10].
+    destruct I as [I1 I2 I3 I4 I5 I6 I7 I8 I9 I10 I11].
     constructor; simpl; auto.
     - intros c n Hc Hn. specialize (I1 c n Hc Hn). lia.
     - intros k p G. destruct (I2 k p G) as (tm & G1 & K1 & DD). exists tm. split; [exact G1|]. split; [exact K1|].
@@ -400,7 +412,7 @@ Section Preservation.
   Lemma inv_cb_begin : forall s c, Inv ttl s -> Inv ttl (step ttl s (ACbBegin c)).
   Proof.
     intros s c I. simpl.
-    destruct I as [I1 I2 I3 I4 I5 I6 I7 I8 I9 I10].
+    destruct I as [I1 I2 I3 I4 I5 I6 I7 I8 I9 I10 I11].
     set (f := fun c0 : cb => if Nat.eqb (c_id c0) c
                 then match c_now c0 with None => mkCb (c_id c0) (c_timer c0) (Some (now s)) | Some _ => c0 end
                 else c0).
@@ -425,7 +437,7 @@ Section Preservation.
   Proof.
     intros s t I. simpl. destruct (armed_of t s) as [dl|] eqn:A; [|exact I].
     destruct (dl <=? now s) eqn:D; [|exact I]. apply Z.leb_le in D.
-    destruct I as [I1 I2 I3 I4 I5 I6 I7 I8 I9 I10].
+    destruct I as [I1 I2 I3 I4 I5 I6 I7 I8 I9 I10 I11].
     unfold armed_of in A. destruct (get_timer t s) as [tmt|] eqn:Gt; [|discriminate].
     assert (GM : forall t', lookup Nat.eqb t' (set_armed t None (timers s)) =
                match get_timer t' s with
@@ -439,9 +451,9 @@ Section Preservation.
       destruct (Nat.eqb (t_timer p) t) eqn:ET.
       + apply Nat.eqb_eq in ET. subst t. assert (tm = tmt) by congruence. subst tmt.
         exists (mkTimer (tm_key tm) None). split; [reflexivity|]. split; [exact K1|]. right. simpl.
-        destruct DD as [A'|(A' & _)]; [|congruence].
-        assert (dl = t_expiry p) by congruence. subst dl.
-        split; [reflexivity|]. split; [exact D|].
+        destruct DD as [(d0 & A' & Hd0)|(A' & _)]; [|congruence].
+        assert (dl = d0) by congruence. subst dl.
+        split; [reflexivity|]. split; [lia|].
         exists (mkCb (next_cb s) (t_timer p) None). split; [apply in_or_app; right; left; reflexivity|].
         split; [reflexivity | simpl; discriminate].
       + exists tm. split; [reflexivity|]. split; [exact K1|].
@@ -459,35 +471,47 @@ Section Preservation.
   Lemma inv_template : forall s k tag, Inv ttl s -> Inv ttl (step ttl s (ATemplate k tag)).
   Proof.
     intros s k tag I. simpl.
-    destruct I as [I1 I2 I3 I4 I5 I6 I7 I8 I9 I10].
+    destruct I as [I1 I2 I3 I4 I5 I6 I7 I8 I9 I10 I11].
     set (s1 := add_template ttl k tag s).
     destruct (add_other ttl k tag s) as (Hnow & Hfl & Hncb & Hok & Hnt). fold s1 in Hnow, Hfl, Hncb, Hok, Hnt.
+    pose proof (add_tick ttl k tag s) as Htk. fold s1 in Htk.
     destruct (add_nodup ttl k tag s I9 I10) as [ND1 ND2]. fold s1 in ND1, ND2.
     set (tnew := match get_tpl k s with Some p => t_timer p | None => next_timer s end).
     assert (GT : forall k', get_tpl k' s1 = if key_eqb k' k then Some (mkTpl tag (now s + ttl) tnew) else get_tpl k' s).
     { intro k'. apply add_get_tpl. }
     pose proof (add_get_timer ttl k tag s) as GM. fold s1 in GM.
-    constructor; simpl; try rewrite Hnow; try rewrite Hfl; try rewrite Hok; auto.
+    set (s2 := with_last_ok s1 (upd key_eqb k (now s) (last_ok s1))).
+    assert (N2 : now s2 = now s + tick s) by exact Hnow.
+    assert (F2 : inflight s2 = inflight s) by exact Hfl.
+    assert (K2 : tick s2 = tick s) by exact Htk.
+    assert (O2 : last_ok s2 = upd key_eqb k (now s) (last_ok s)) by (simpl; rewrite Hok; reflexivity).
+    assert (P2 : forall k', get_tpl k' s2 = get_tpl k' s1) by reflexivity.
+    assert (M2 : forall t', get_timer t' s2 = get_timer t' s1) by reflexivity.
+    constructor.
+    - intros c n Hc Hn. rewrite F2 in Hc. rewrite N2. specialize (I1 c n Hc Hn). lia.
     - (* tpl_ok *)
-      intros k' p' G. change (get_tpl k' s1 = Some p') in G. rewrite GT in G.
-      unfold tpl_ok. rewrite gt_wlo. simpl. try rewrite Hnow; try rewrite Hfl.
+      intros k' p' G. rewrite P2, GT in G.
+      unfold tpl_ok. rewrite M2, N2, F2, K2.
       destruct (key_eqb k' k) eqn:EK.
       + apply key_eqb_eq in EK. subst k'. inversion G. subst p'. simpl. rewrite GM. unfold tnew.
         destruct (get_tpl k s) as [p|] eqn:E.
         * destruct (I2 k p E) as (tm & G1 & K1 & _). rewrite G1, Nat.eqb_refl.
-          exists (mkTimer (tm_key tm) (Some (now s + ttl))). simpl. auto.
-        * rewrite Nat.eqb_refl. exists (mkTimer k (Some (now s + ttl))). simpl. auto.
+          exists (mkTimer (tm_key tm) (Some (now s + tick s + ttl))). simpl.
+          split; [reflexivity|]. split; [exact K1|]. left. eexists. split; [reflexivity|]. lia.
+        * rewrite Nat.eqb_refl. exists (mkTimer k (Some (now s + tick s + ttl))). simpl.
+          split; [reflexivity|]. split; [reflexivity|]. left. eexists. split; [reflexivity|]. lia.
       + apply key_eqb_neq in EK. destruct (I2 k' p' G) as (tm' & G1 & K1 & DD).
-        exists tm'. split; [|split; [exact K1 | exact DD]].
-        rewrite GM. destruct (get_tpl k s) as [p|] eqn:E.
-        * rewrite G1. destruct (Nat.eqb (t_timer p') (t_timer p)) eqn:ET; [|reflexivity].
-          apply Nat.eqb_eq in ET. exfalso. apply EK.
-          eapply timers_distinct; [apply I2; exact G | apply I2; exact E | exact ET].
-        * destruct (Nat.eqb (t_timer p') (next_timer s)) eqn:ET; [|exact G1].
-          apply Nat.eqb_eq in ET. apply I4 in G1. lia.
+        exists tm'. split; [|split; [exact K1 |]].
+        * rewrite GM. destruct (get_tpl k s) as [p|] eqn:E.
+          -- rewrite G1. destruct (Nat.eqb (t_timer p') (t_timer p)) eqn:ET; [|reflexivity].
+             apply Nat.eqb_eq in ET. exfalso. apply EK.
+             eapply timers_distinct; [apply I2; exact G | apply I2; exact E | exact ET].
+          -- destruct (Nat.eqb (t_timer p') (next_timer s)) eqn:ET; [|exact G1].
+             apply Nat.eqb_eq in ET. apply I4 in G1. lia.
+        * destruct DD as [A|(A & B & C)]; [left; exact A | right].
+          split; [exact A|]. split; [lia | exact C].
     - (* armed -> stored *)
-      intros t tm d G Ad. change (get_timer t s1 = Some tm) in G.
-      change (exists p, get_tpl (tm_key tm) s1 = Some p /\ t_timer p = t). rewrite GM in G.
+      intros t tm d G Ad. rewrite M2 in G. setoid_rewrite P2. rewrite GM in G.
       destruct (get_tpl k s) as [p|] eqn:E.
       + destruct (get_timer t s) as [tm0|] eqn:G0; [|discriminate].
         destruct (Nat.eqb t (t_timer p)) eqn:ET.
@@ -505,31 +529,36 @@ Section Preservation.
           rewrite GT. destruct (key_eqb (tm_key tm) k) eqn:EK; [|exact Gp].
           apply key_eqb_eq in EK. rewrite EK in Gp. congruence.
     - (* fresh *)
-      intros t tm G. change (get_timer t s1 = Some tm) in G. rewrite GM in G. rewrite Hnt.
+      intros t tm G. rewrite M2, GM in G. change (next_timer s2) with (next_timer s1). rewrite Hnt.
       destruct (get_tpl k s) as [p|] eqn:E.
       + destruct (get_timer t s) as [tm0|] eqn:G0; [|discriminate]. eapply I4. exact G0.
       + destruct (Nat.eqb t (next_timer s)) eqn:ET.
         * apply Nat.eqb_eq in ET. lia.
         * apply I4 in G. lia.
     - (* ok none *)
-      intros k' L. rewrite klookup_upd in L. change (get_tpl k' s1 = None). rewrite GT.
+      intros k' L. rewrite O2, klookup_upd in L. rewrite P2, GT.
       destruct (key_eqb k' k); [discriminate | auto].
     - (* ok exp *)
-      intros k' t0 p' L G. rewrite klookup_upd in L. change (get_tpl k' s1 = Some p') in G. rewrite GT in G.
+      intros k' t0 p' L G. rewrite O2, klookup_upd in L. rewrite P2, GT in G.
       destruct (key_eqb k' k).
       + inversion L. inversion G. subst. reflexivity.
       + eauto.
     - (* alive *)
-      intros k' t0 L Hlt. rewrite klookup_upd in L. change (exists p, get_tpl k' s1 = Some p). rewrite GT.
-      destruct (key_eqb k' k); [eexists; reflexivity | eauto].
+      intros k' t0 L Hlt. rewrite O2, klookup_upd in L. rewrite N2 in Hlt. setoid_rewrite P2. setoid_rewrite GT.
+      destruct (key_eqb k' k); [eexists; reflexivity | apply (I7 k' t0 L); lia].
     - (* past *)
-      intros k' t0 L. rewrite klookup_upd in L. destruct (key_eqb k' k); [inversion L; lia | eauto].
+      intros k' t0 L. rewrite O2, klookup_upd in L. rewrite N2.
+      destruct (key_eqb k' k); [inversion L; lia | specialize (I8 k' t0 L); lia].
+    - exact ND1.
+    - exact ND2.
+    - rewrite K2. exact I11.
   Qed.
+
 
   Lemma inv_bad : forall s k, Inv ttl s -> Inv ttl (step ttl s (ABad k)).
   Proof.
     intros s k I. simpl.
-    destruct I as [I1 I2 I3 I4 I5 I6 I7 I8 I9 I10].
+    destruct I as [I1 I2 I3 I4 I5 I6 I7 I8 I9 I10 I11].
     set (s1 := delete_with_cond (fun _ => true) k s).
     destruct (del_other (fun _ => true) k s) as (Hnow & Hfl & Hnt & Hncb & Hok). fold s1 in Hnow, Hfl, Hnt, Hncb, Hok.
     assert (DP := delete_pres (fun _ => true) k s I9 I10 I4 I3).
@@ -556,6 +585,7 @@ Section Preservation.
       destruct (key_eqb k' k); [discriminate | eauto].
     - exact P4.
     - exact P5.
+    - simpl. unfold s1. rewrite del_tick. exact I11.
   Qed.
 
   Lemma inv_cb_end : forall s c, Inv ttl s -> Inv ttl (step ttl s (ACbEnd c)).
@@ -565,7 +595,7 @@ Section Preservation.
     destruct (c_now x) as [n|] eqn:Xn; [|exact I].
     destruct (get_timer (c_timer x) s) as [tm|] eqn:Xt; [|exact I].
     destruct (take_cb_In _ _ _ _ TK) as (Xin & Xsplit & Xrest).
-    destruct I as [I1 I2 I3 I4 I5 I6 I7 I8 I9 I10].
+    destruct I as [I1 I2 I3 I4 I5 I6 I7 I8 I9 I10 I11].
     assert (Nle : n <= now s) by (eapply I1; eauto).
     set (k := tm_key tm).
     set (s0 := with_inflight s rest).
@@ -603,6 +633,7 @@ Section Preservation.
       unfold expired_at in HC. apply negb_true_iff in HC. apply Z.ltb_ge in HC.
       specialize (I6 k t0 p L G). lia.
     - intros k' t0 L. rewrite Hok in L. rewrite Hnow. simpl. eauto.
+    - unfold s1. rewrite del_tick. exact I11.
   Qed.
 
   Theorem step_inv : forall s a, Inv ttl s -> Inv ttl (step ttl s a).
@@ -620,39 +651,61 @@ Section Preservation.
   Lemma fold_inv : forall acts s, Inv ttl s -> Inv ttl (fold_left (step ttl) acts s).
   Proof. induction acts as [|a r IH]; intros s I; simpl; [exact I | apply IH, step_inv, I]. Qed.
 
+  Theorem run_tick_inv : forall tk acts, 0 <= tk -> Inv ttl (run_tick ttl tk acts).
+  Proof. intros tk acts H. apply fold_inv, Inv_init_tick, H. Qed.
   Theorem run_inv : forall acts, Inv ttl (run ttl acts).
-  Proof. intro acts. apply fold_inv, Inv_init. Qed.
+  Proof. intro acts. apply run_tick_inv. lia. Qed.
 End Preservation.
 
 (* ---------------------------------------------------------------------------------------- *)
 (* the ghost of the model state is the specification-level ghost of the action sequence *)
-Definition linked (g : gst) (s : st) : Prop := g_now g = now s /\ g_ok g = last_ok s.
+Definition linked (tk : Z) (g : gst) (s : st) : Prop :=
+  g_now g = now s /\ g_ok g = last_ok s /\ tick s = tk.
 
-Lemma step_linked : forall ttl g s a, linked g s -> linked (gstep g a) (step ttl s a).
+Lemma step_tick : forall ttl s a, tick (step ttl s a) = tick s.
 Proof.
-  intros ttl g s a [Hn Ho]. unfold linked. destruct a; simpl.
-  - destruct (add_other ttl k tag s) as (A & _ & _ & B & _). rewrite A, B, Hn, Ho. auto.
-  - destruct (del_other (fun _ => true) k s) as (A & _ & _ & _ & B). rewrite A, B, Hn, Ho. auto.
-  - auto.
-  - destruct (d <? 0); simpl; auto. rewrite Hn, Ho. auto.
-  - destruct (armed_of t s); auto. destruct (z <=? now s); simpl; auto.
-  - auto.
+  intros ttl s a. destruct a; simpl; auto.
+  - apply add_tick.
+  - apply del_tick.
+  - destruct (d <? 0); auto.
+  - destruct (armed_of t s); auto. destruct (z <=? now s); auto.
   - destruct (take_cb c (inflight s)) as [[x rest]|]; auto.
     destruct (c_now x); auto. destruct (get_timer (c_timer x) s); auto.
-    destruct (del_other (expired_at z) (tm_key t) (with_inflight s rest)) as (A & _ & _ & _ & B).
-    rewrite A, B. simpl. auto.
+    rewrite del_tick. reflexivity.
 Qed.
 
-Lemma fold_linked : forall ttl acts g s, linked g s ->
-  linked (fold_left gstep acts g) (fold_left (step ttl) acts s).
+Lemma step_linked : forall ttl tk g s a, linked tk g s -> linked tk (gstep tk g a) (step ttl s a).
+Proof.
+  intros ttl tk g s a (Hn & Ho & Ht). unfold linked. split; [|split; [|rewrite step_tick; exact Ht]].
+  - destruct a; simpl; auto.
+    + destruct (add_other ttl k tag s) as (A & _). rewrite A, Hn, Ht. reflexivity.
+    + destruct (del_other (fun _ => true) k s) as (A & _). rewrite A. exact Hn.
+    + destruct (d <? 0); simpl; auto. rewrite Hn. reflexivity.
+    + destruct (armed_of t s); auto. destruct (z <=? now s); simpl; auto.
+    + destruct (take_cb c (inflight s)) as [[x rest]|]; auto.
+      destruct (c_now x); auto. destruct (get_timer (c_timer x) s); auto.
+      destruct (del_other (expired_at z) (tm_key t) (with_inflight s rest)) as (A & _). rewrite A. exact Hn.
+  - destruct a; simpl; auto.
+    + destruct (add_other ttl k tag s) as (_ & _ & _ & B & _). rewrite B, Hn, Ho. reflexivity.
+    + destruct (del_other (fun _ => true) k s) as (_ & _ & _ & _ & B). rewrite B, Ho. reflexivity.
+    + destruct (d <? 0); simpl; auto.
+    + destruct (armed_of t s); auto. destruct (z <=? now s); simpl; auto.
+    + destruct (take_cb c (inflight s)) as [[x rest]|]; auto.
+      destruct (c_now x); auto. destruct (get_timer (c_timer x) s); auto.
+      destruct (del_other (expired_at z) (tm_key t) (with_inflight s rest)) as (_ & _ & _ & _ & B).
+      rewrite B. exact Ho.
+Qed.
+
+Lemma fold_linked : forall ttl tk acts g s, linked tk g s ->
+  linked tk (fold_left (gstep tk) acts g) (fold_left (step ttl) acts s).
 Proof. induction acts as [|a r IH]; intros g s L; simpl; [exact L | apply IH, step_linked, L]. Qed.
 
-Lemma run_linked : forall ttl acts, linked (grun acts) (run ttl acts).
-Proof. intros. apply fold_linked. split; reflexivity. Qed.
+Lemma run_linked : forall ttl tk acts, linked tk (grun_tick tk acts) (run_tick ttl tk acts).
+Proof. intros. apply fold_linked. repeat split; reflexivity. Qed.
 
-Lemma gstep_nodup : forall g a, NoDup (map fst (g_ok g)) -> NoDup (map fst (g_ok (gstep g a))).
+Lemma gstep_nodup : forall tk g a, NoDup (map fst (g_ok g)) -> NoDup (map fst (g_ok (gstep tk g a))).
 Proof.
-  intros g a H. destruct a; simpl; auto.
+  intros tk g a H. destruct a; simpl; auto.
   - apply NoDup_upd; [exact key_eqb_eq | exact H].
   - apply NoDup_del; exact H.
   - destruct (d <? 0); auto.
@@ -750,11 +803,11 @@ Proof. intros; subst; reflexivity. Qed.
 Lemma andb8_intro : forall a b c d e f g h, a = true -> b = true -> c = true -> d = true -> e = true ->
   f = true -> g = true -> h = true -> a && b && c && d && e && f && g && h = true.
 Proof. intros; subst; reflexivity. Qed.
-Lemma check_obs_inv : forall ttl g s, Inv ttl s -> linked g s -> NoDup (map fst (g_ok g)) ->
-  check_obs ttl g (observe s) = true.
+Lemma check_obs_inv : forall ttl tk g s, Inv ttl s -> linked tk g s -> NoDup (map fst (g_ok g)) ->
+  check_obs ttl tk g (observe s) = true.
 Proof.
-  intros ttl g s I [Ln Lo] NDok.
-  destruct I as [I1 I2 I3 I4 I5 I6 I7 I8 I9 I10].
+  intros ttl tk g s I (Ln & Lo & Lt) NDok.
+  destruct I as [I1 I2 I3 I4 I5 I6 I7 I8 I9 I10 I11].
   assert (SO : forall k, stored_obs (observe s) k = get_tpl k s).
   { intro k. unfold stored_obs, observe. simpl. apply lookup_sort_k. exact I9. }
   assert (ST : forall k p, In (k, p) (sort_k (tpls s)) -> get_tpl k s = Some p).
@@ -773,15 +826,17 @@ Proof.
     apply andb3_intro.
     + apply Z.eqb_eq. exact Hexp.
     + simpl. rewrite AL. unfold armed_of. rewrite G1.
-      destruct DD as [A|(A & B & c0 & Hc0 & Gt & Gn)]; rewrite A.
-      * apply Z.eqb_eq. reflexivity.
+      destruct DD as [(d0 & A & Hd0)|(A & B & c0 & Hc0 & Gt & Gn)]; rewrite A.
+      * rewrite Lt in Hd0. apply andb_true_iff. split; apply Z.leb_le; lia.
       * apply existsb_exists. exists c0. split; [exact Hc0 | apply Nat.eqb_eq; exact Gt].
     + destruct (quiescent_obs (observe s)) eqn:Q; simpl; auto.
       unfold quiescent_obs in Q. apply andb_true_iff in Q. destruct Q as [Q1 Q2]. simpl in Q1, Q2.
-      destruct DD as [A|(A & B & c0 & Hc0 & _)].
-      * rewrite forallb_forall in Q1. apply (Q1 (t_timer p, t_expiry p)).
-        apply armed_list_In. exists tm. split; auto.
-        apply (lookup_In Nat.eqb nat_eqb_eq). exact G1.
+      destruct DD as [(d0 & A & Hd0)|(A & B & c0 & Hc0 & _)].
+      * rewrite forallb_forall in Q1.
+        assert (Hq : (now s <? d0) = true).
+        { apply (Q1 (t_timer p, d0)). apply armed_list_In. exists tm. split; auto.
+          apply (lookup_In Nat.eqb nat_eqb_eq). exact G1. }
+        apply Z.ltb_lt in Hq. rewrite Lt in Hd0. apply Z.ltb_lt. lia.
       * destruct (inflight s); [contradiction | discriminate].
   - apply forallb_forall. intros [k t0] Hin. unfold check_alive.
     assert (L : lookup key_eqb k (last_ok s) = Some t0).
@@ -810,79 +865,117 @@ Proof.
   - apply (nodupb_true Nat.eqb nat_eqb_eq). simpl. apply armed_list_nodup. exact I10.
 Qed.
 
-Lemma check_trace_inv : forall ttl acts g s, Inv ttl s -> linked g s -> NoDup (map fst (g_ok g)) ->
-  check_trace ttl g acts (trace ttl s acts) = true.
+Lemma check_trace_inv : forall ttl tk acts g s, Inv ttl s -> linked tk g s -> NoDup (map fst (g_ok g)) ->
+  check_trace ttl tk g acts (trace ttl s acts) = true.
 Proof.
-  induction acts as [|a r IH]; intros g s I L ND; simpl; auto.
+  intros ttl tk. induction acts as [|a r IH]; intros g s I L ND; simpl; auto.
   apply andb_true_iff. split.
   - apply check_obs_inv; [apply step_inv; exact I | apply step_linked; exact L | apply gstep_nodup; exact ND].
   - apply IH; [apply step_inv; exact I | apply step_linked; exact L | apply gstep_nodup; exact ND].
 Qed.
 
-Theorem oracle_holds : forall ttl acts, check_trace ttl ginit acts (trace ttl init acts) = true.
+Theorem oracle_holds : forall ttl tk acts, 0 <= tk ->
+  check_trace ttl tk ginit acts (trace ttl (init_tick tk) acts) = true.
 Proof.
-  intros. apply check_trace_inv; [apply Inv_init | split; reflexivity | constructor].
+  intros. apply check_trace_inv; [apply Inv_init_tick; assumption | repeat split; reflexivity | constructor].
 Qed.
 
 (* ---------------------------------------------------------------------------------------- *)
-(* the three clauses of C10, for every action sequence *)
+(* the three clauses of C10, for every action sequence and every clock granularity tk >= 0
+   (tk = how far the clock moves between the clock read for expiryTime and the arming of the
+   timer inside addTemplate; tk = 0 is a clock that stands still inside addTemplate) *)
 Definition quiescent (s : st) : Prop :=
   (forall t d, armed_of t s = Some d -> now s < d) /\ inflight s = [].
 
 (* P1: no early drop *)
-Lemma no_early_drop_lemma : forall ttl acts k t0,
-  last_accept acts k = Some t0 -> g_now (grun acts) < t0 + ttl ->
-  exists p, get_tpl k (run ttl acts) = Some p /\ t_expiry p = t0 + ttl /\
-            probe (run ttl acts) k = Some (nrec (t_tag p)).
+Lemma no_early_drop_lemma : forall ttl tk acts k t0, 0 <= tk ->
+  last_accept_tick tk acts k = Some t0 -> g_now (grun_tick tk acts) < t0 + ttl ->
+  exists p, get_tpl k (run_tick ttl tk acts) = Some p /\ t_expiry p = t0 + ttl /\
+            probe (run_tick ttl tk acts) k = Some (nrec (t_tag p)).
 Proof.
-  intros ttl acts k t0 L Hlt. destruct (run_linked ttl acts) as [Ln Lo].
-  pose proof (run_inv ttl acts) as I. unfold last_accept in L. rewrite Lo in L. rewrite Ln in Hlt.
+  intros ttl tk acts k t0 Htk L Hlt. destruct (run_linked ttl tk acts) as (Ln & Lo & _).
+  pose proof (run_tick_inv ttl tk acts Htk) as I. unfold last_accept_tick in L. rewrite Lo in L. rewrite Ln in Hlt.
   destruct (inv_ok_alive _ _ I k t0 L Hlt) as (p & G). exists p. split; [exact G|]. split.
   - eapply inv_ok_exp; eauto.
   - unfold probe. rewrite G. reflexivity.
 Qed.
 
 (* a stored template is always the last accepted one, with the expiry that acceptance gave it *)
-Lemma stored_is_last_accept_lemma : forall ttl acts k p,
-  get_tpl k (run ttl acts) = Some p ->
-  exists t0, last_accept acts k = Some t0 /\ t_expiry p = t0 + ttl /\ t0 <= g_now (grun acts).
+Lemma stored_is_last_accept_lemma : forall ttl tk acts k p, 0 <= tk ->
+  get_tpl k (run_tick ttl tk acts) = Some p ->
+  exists t0, last_accept_tick tk acts k = Some t0 /\ t_expiry p = t0 + ttl /\ t0 <= g_now (grun_tick tk acts).
 Proof.
-  intros ttl acts k p G. destruct (run_linked ttl acts) as [Ln Lo].
-  pose proof (run_inv ttl acts) as I. unfold last_accept. rewrite Lo, Ln.
-  destruct (lookup key_eqb k (last_ok (run ttl acts))) as [t0|] eqn:L.
+  intros ttl tk acts k p Htk G. destruct (run_linked ttl tk acts) as (Ln & Lo & _).
+  pose proof (run_tick_inv ttl tk acts Htk) as I. unfold last_accept_tick. rewrite Lo, Ln.
+  destruct (lookup key_eqb k (last_ok (run_tick ttl tk acts))) as [t0|] eqn:L.
   - exists t0. split; [reflexivity|]. split; [eapply inv_ok_exp; eauto | eapply inv_ok_past; eauto].
   - apply (inv_ok_none _ _ I) in L. congruence.
 Qed.
 
-(* P2: once the lifetime is over and nothing is pending, the template is gone *)
-Lemma discarded_lemma : forall ttl acts k, quiescent (run ttl acts) ->
+(* P2: once the lifetime (plus the clock granularity) is over and nothing is pending, the template is gone *)
+Lemma discarded_lemma : forall ttl tk acts k, 0 <= tk -> quiescent (run_tick ttl tk acts) ->
+  match last_accept_tick tk acts k with
+  | Some t0 => t0 + ttl + tk <= g_now (grun_tick tk acts) -> get_tpl k (run_tick ttl tk acts) = None
+  | None => True
+  end.
+Proof.
+  intros ttl tk acts k Htk [Q1 Q2]. destruct (last_accept_tick tk acts k) as [t0|] eqn:L; [|exact Logic.I].
+  intro Hge. destruct (get_tpl k (run_tick ttl tk acts)) as [p|] eqn:G; [|reflexivity]. exfalso.
+  destruct (stored_is_last_accept_lemma ttl tk acts k p Htk G) as (t0' & L' & E & _).
+  assert (t0' = t0) by congruence. subst t0'.
+  pose proof (run_tick_inv ttl tk acts Htk) as I. destruct (run_linked ttl tk acts) as (Ln & _ & Lt).
+  destruct (inv_tpl _ _ I k p G) as (tm & G1 & _ & [(d & A & Hd)|(_ & _ & c & Hc & _)]).
+  - assert (now (run_tick ttl tk acts) < d).
+    { apply (Q1 (t_timer p)). unfold armed_of. rewrite G1. exact A. }
+    rewrite Lt in Hd. lia.
+  - rewrite Q2 in Hc. contradiction.
+Qed.
+
+Lemma never_accepted_gone_lemma : forall ttl tk acts k, 0 <= tk ->
+  last_accept_tick tk acts k = None ->
+  get_tpl k (run_tick ttl tk acts) = None /\ probe (run_tick ttl tk acts) k = None.
+Proof.
+  intros ttl tk acts k Htk L. destruct (run_linked ttl tk acts) as (_ & Lo & _).
+  unfold last_accept_tick in L. rewrite Lo in L. apply (inv_ok_none _ _ (run_tick_inv ttl tk acts Htk)) in L.
+  split; [exact L | unfold probe; rewrite L; reflexivity].
+Qed.
+
+(* P3: timers *)
+Lemma timers_lemma : forall ttl tk acts, 0 <= tk -> let s := run_tick ttl tk acts in
+  (forall k p, get_tpl k s = Some p ->
+     (exists d, armed_of (t_timer p) s = Some d /\ t_expiry p <= d <= t_expiry p + tk) \/
+     (armed_of (t_timer p) s = None /\ exists c, In c (inflight s) /\ c_timer c = t_timer p)) /\
+  (forall t1 t2 tm1 tm2 d1 d2, get_timer t1 s = Some tm1 -> get_timer t2 s = Some tm2 ->
+     tm_armed tm1 = Some d1 -> tm_armed tm2 = Some d2 -> tm_key tm1 = tm_key tm2 -> t1 = t2) /\
+  (forall t d, armed_of t s = Some d -> exists k p, get_tpl k s = Some p /\ t_timer p = t).
+Proof.
+  intros ttl tk acts Htk s. pose proof (run_tick_inv ttl tk acts Htk) as I. fold s in I.
+  destruct (run_linked ttl tk acts) as (_ & _ & Lt). fold s in Lt. split; [|split].
+  - intros k p G. destruct (inv_tpl _ _ I k p G) as (tm & G1 & _ & DD). unfold armed_of. rewrite G1.
+    destruct DD as [(d & A & Hd)|(A & _ & c & Hc & Gt & _)].
+    + left. exists d. rewrite Lt in Hd. auto.
+    + right. split; [exact A | exists c; auto].
+  - intros t1 t2 tm1 tm2 d1 d2 G1 G2 A1 A2 EK.
+    destruct (inv_armed _ _ I t1 tm1 d1 G1 A1) as (p1 & P1 & T1).
+    destruct (inv_armed _ _ I t2 tm2 d2 G2 A2) as (p2 & P2 & T2).
+    rewrite EK in P1. congruence.
+  - intros t d A. unfold armed_of in A. destruct (get_timer t s) as [tm|] eqn:G; [|discriminate].
+    destruct (inv_armed _ _ I t tm d G A) as (p & P & T). eauto.
+Qed.
+
+(* the exact statements for a clock that stands still inside addTemplate (tk = 0) *)
+Lemma discarded_exact_lemma : forall ttl acts k, quiescent (run ttl acts) ->
   match last_accept acts k with
   | Some t0 => t0 + ttl <= g_now (grun acts) -> get_tpl k (run ttl acts) = None
   | None => True
   end.
 Proof.
-  intros ttl acts k [Q1 Q2]. destruct (last_accept acts k) as [t0|] eqn:L; [|exact I].
-  intro Hge. destruct (get_tpl k (run ttl acts)) as [p|] eqn:G; [|reflexivity]. exfalso.
-  destruct (stored_is_last_accept_lemma ttl acts k p G) as (t0' & L' & E & _).
-  assert (t0' = t0) by congruence. subst t0'.
-  pose proof (run_inv ttl acts) as I. destruct (run_linked ttl acts) as [Ln _].
-  destruct (inv_tpl _ _ I k p G) as (tm & G1 & _ & [A|(_ & _ & c & Hc & _)]).
-  - assert (now (run ttl acts) < t_expiry p).
-    { apply (Q1 (t_timer p)). unfold armed_of. rewrite G1. exact A. }
-    lia.
-  - rewrite Q2 in Hc. contradiction.
+  intros ttl acts k Q. pose proof (discarded_lemma ttl 0 acts k (Z.le_refl 0) Q) as H.
+  unfold last_accept, grun, run. destruct (last_accept_tick 0 acts k); auto.
+  intro Hge. apply H. lia.
 Qed.
 
-Lemma never_accepted_gone_lemma : forall ttl acts k,
-  last_accept acts k = None -> get_tpl k (run ttl acts) = None /\ probe (run ttl acts) k = None.
-Proof.
-  intros ttl acts k L. destruct (run_linked ttl acts) as [_ Lo].
-  unfold last_accept in L. rewrite Lo in L. apply (inv_ok_none _ _ (run_inv ttl acts)) in L.
-  split; [exact L | unfold probe; rewrite L; reflexivity].
-Qed.
-
-(* P3: timers *)
-Lemma timers_lemma : forall ttl acts, let s := run ttl acts in
+Lemma timers_exact_lemma : forall ttl acts, let s := run ttl acts in
   (forall k p, get_tpl k s = Some p ->
      armed_of (t_timer p) s = Some (t_expiry p) \/
      (armed_of (t_timer p) s = None /\ exists c, In c (inflight s) /\ c_timer c = t_timer p)) /\
@@ -890,13 +983,8 @@ Lemma timers_lemma : forall ttl acts, let s := run ttl acts in
      tm_armed tm1 = Some d1 -> tm_armed tm2 = Some d2 -> tm_key tm1 = tm_key tm2 -> t1 = t2) /\
   (forall t d, armed_of t s = Some d -> exists k p, get_tpl k s = Some p /\ t_timer p = t).
 Proof.
-  intros ttl acts s. pose proof (run_inv ttl acts) as I. fold s in I. split; [|split].
-  - intros k p G. destruct (inv_tpl _ _ I k p G) as (tm & G1 & _ & DD). unfold armed_of. rewrite G1.
-    destruct DD as [A|(A & _ & c & Hc & Gt & _)]; [left; exact A | right; split; [exact A | exists c; auto]].
-  - intros t1 t2 tm1 tm2 d1 d2 G1 G2 A1 A2 EK.
-    destruct (inv_armed _ _ I t1 tm1 d1 G1 A1) as (p1 & P1 & T1).
-    destruct (inv_armed _ _ I t2 tm2 d2 G2 A2) as (p2 & P2 & T2).
-    rewrite EK in P1. congruence.
-  - intros t d A. unfold armed_of in A. destruct (get_timer t s) as [tm|] eqn:G; [|discriminate].
-    destruct (inv_armed _ _ I t tm d G A) as (p & P & T). eauto.
+  intros ttl acts s. destruct (timers_lemma ttl 0 acts (Z.le_refl 0)) as (A & B & C).
+  split; [|split; [exact B | exact C]].
+  intros k p G. destruct (A k p G) as [(d & Hd & Hr)|R]; [left | right; exact R].
+  fold s. replace (t_expiry p) with d by lia. exact Hd.
 Qed.
